@@ -66,8 +66,8 @@ CFG = dict(
               "artifact_snapshot", "paramData_snapshot", "completed_before_is_visible", "snapshot_params",
               "witness_check_sound", "unlocked_mixes_states", "unlocked_not_linearizable"],
     # corollaries / lemmas about the predicates, kernel-checked with the module, not counted as obligations (ignored by the check)
-    helper_theorems=["linearizable'", "locked_never_bad", "wellLocked_sound", "micro_uninterrupted", "artifactTrace_eval",
-                     "spec_depends_on_statics", "artifactTraceM_eval"],
+    helper_theorems=["linearizable'", "locked_never_bad", "wellLocked_sound", "artifactTraceS_eval",
+                     "spec_depends_on_statics"],
     streams=[dict(name="c13", n=dict(quick=1500, thorough=40000), timeout=dict(quick=600, thorough=3600))],
     extras=[dict(name="race-detector (go build -race; stream c13; quick: GOMAXPROCS varied per history; thorough: also pinned 1,2,16)",
                  cmd=["bash", "-c", RACE_C13, "race_c13", "{work}", "{seed}", "{tier}"],
